@@ -489,8 +489,82 @@ func (w *Wire) waitOrDeadlock(pred func() bool) string {
 	return QWatchdog
 }
 
+// allParked reports whether every goroutine executing server-side library
+// code is parked (channel, lock, condition variable, wait group), i.e. none is
+// running or runnable. Used to tell "a callback sits on a gate and the rest of
+// the server waits for it" from "a callback sits on a gate while the command
+// loop is still busy".
+func allParked() bool {
+	var live []string
+	for _, g := range ServerGoroutines() {
+		if !knownLeaked[goroutineID(g)] {
+			live = append(live, g)
+		}
+	}
+	if len(live) == 0 {
+		return false
+	}
+	for _, g := range live {
+		head := g
+		if i := strings.IndexByte(g, '\n'); i >= 0 {
+			head = g[:i]
+		}
+		parked := false
+		for _, st := range []string{"chan receive", "chan send", "select", "sync.Cond.Wait", "sync.WaitGroup.Wait"} {
+			if strings.Contains(head, st) {
+				parked = true
+			}
+		}
+		if strings.Contains(head, "semacquire") && strings.Contains(g, "sync.(*WaitGroup).Wait") {
+			parked = true
+		}
+		// waiting for a mutex (e.g. the in-memory network's) is transient
+		if !parked || strings.Contains(g, "sync.(*Mutex).Lock") {
+			return false
+		}
+	}
+	return true
+}
+
 // WaitQuiet waits until the server cannot make progress without the harness.
 func (w *Wire) WaitQuiet() string {
+	for i := 0; ; i++ {
+		st := w.waitQuietOnce()
+		if st != QGate {
+			return st
+		}
+		// A parked gate is a lasting condition: make sure the rest of the
+		// server has come to rest too (the command loop may still be working
+		// on the input, e.g. when only a delivery goroutine is parked).
+		w.R.Hub.Lock()
+		idle := w.S.BlockedInReadLocked() || w.S.ClosedLocked()
+		w.R.Hub.Unlock()
+		if idle {
+			continue // re-evaluate: idle / closed take precedence
+		}
+		if allParked() {
+			// everything is at rest now; the command loop may have parked
+			// in Read (waiting for input) in the meantime: that is idleness
+			w.R.Hub.Lock()
+			idle = w.S.BlockedInReadLocked() || w.S.ClosedLocked()
+			w.R.Hub.Unlock()
+			if idle {
+				continue
+			}
+			return QGate
+		}
+		if i < 200 {
+			runtime.Gosched()
+		} else {
+			time.Sleep(200 * time.Microsecond)
+		}
+		if i > 100000 {
+			return QWatchdog
+		}
+	}
+}
+
+func (w *Wire) waitQuietOnce() string {
 	st := ""
 	bad := w.waitOrDeadlock(func() bool {
 		switch {
